@@ -251,6 +251,9 @@ func (r *refRun) applyText(o *OptInfo, text string) *RefErr {
 	}
 	if o.Kind.IsFunc() {
 		r.res.CbLog = append(r.res.CbLog, CbEntry{Opt: o.ID, Arg: e})
+		if o.CbErr {
+			return &RefErr{Types: []flags.ErrorType{flags.ErrMarshal}, Foreign: true, Name: o.Display(), Why: "option callback returned an error"}
+		}
 	}
 	r.occ[o.ID] = append(r.occ[o.ID], e)
 	return nil
@@ -278,9 +281,12 @@ func (r *refRun) occurrence(o *OptInfo, inline *string, canNext bool) *RefErr {
 		}
 		r.occN[o.ID]++
 		switch o.Kind {
-		case KFunc0:
+		case KFunc0, KFunc0E:
 			r.res.CbLog = append(r.res.CbLog, CbEntry{Opt: o.ID})
 			r.occ[o.ID] = append(r.occ[o.ID], nil)
+			if o.CbErr {
+				return &RefErr{Types: []flags.ErrorType{flags.ErrMarshal}, Foreign: true, Name: o.Display(), Why: "option callback returned an error"}
+			}
 		default:
 			r.occ[o.ID] = append(r.occ[o.ID], true)
 		}
@@ -643,6 +649,9 @@ loop:
 	if res.Undetermined != "" {
 		return res
 	}
+	// a rejected default/env value and a missing required item are two causes
+	// for one rejection: either type is then in order
+	var pendingDefErr *RefErr
 	if len(defErrs) > 0 {
 		e := &RefErr{Why: "default/env value rejected: " + defErrs[0].Why, Name: defErrs[0].Name}
 		seen := map[flags.ErrorType]bool{}
@@ -655,7 +664,7 @@ loop:
 		if len(defErrs) > 1 {
 			e.Name = ""
 		}
-		return fail(e)
+		pendingDefErr = e
 	}
 
 	// positional values
@@ -681,6 +690,11 @@ loop:
 	}
 	if len(missing) > 0 {
 		sort.Strings(missing)
+		if pendingDefErr != nil {
+			pendingDefErr.Types = append(pendingDefErr.Types, flags.ErrRequired)
+			pendingDefErr.Why += " (and required options missing)"
+			return fail(pendingDefErr)
+		}
 		return fail(&RefErr{Types: []flags.ErrorType{flags.ErrRequired}, Missing: missing, Why: "required options missing"})
 	}
 	// ---- positional count constraints of the innermost command ----
@@ -716,7 +730,15 @@ loop:
 		}
 	}
 	if len(unmet) > 0 {
+		if pendingDefErr != nil {
+			pendingDefErr.Types = append(pendingDefErr.Types, flags.ErrRequired)
+			pendingDefErr.Why += " (and positional arguments missing)"
+			return fail(pendingDefErr)
+		}
 		return fail(&RefErr{Types: []flags.ErrorType{flags.ErrRequired}, Missing: unmet, Why: "positional arguments missing"})
+	}
+	if pendingDefErr != nil {
+		return fail(pendingDefErr)
 	}
 	// ---- command requirement ----
 	if len(r.ctx.Cmds) > 0 && !r.ctx.SubOpt {
